@@ -15,7 +15,7 @@ import (
 func init() { register("C19", checkC19) }
 
 func checkC19(c *core.Ctx) {
-	c.Explainf("C19 (decided clauses: ordering and error discipline of the two main packages; crash points such as power loss between write and rename are NOT decided). R1: no call that truncates a file (os.Create, os.WriteFile, os.OpenFile with O_TRUNC) is applied to the user's target: the only accepted way to replace the -o file or the file being formatted is to write a temporary created with os.CreateTemp and os.Rename it over the target once every fallible step (parse, generate, format, write, close) has succeeded; every function that renames must remove its temporary on its failing paths. R2: the errors of Write/Close on the temporary are returned, none is dropped or deferred away. R3: main exits non-zero exactly on the err != nil arm of run(), and every error produced in run/formatFile is returned, none merely printed. R4 (reported as a fact): whether bebopfmt re-parses its output before replacing the file.")
+	c.Explainf("C19 (decided clauses: ordering and error discipline of the two main packages; crash points such as power loss between write and rename are NOT decided). R1: no call that truncates a file (os.Create, os.WriteFile, os.OpenFile with O_TRUNC) is applied to the user's target: the only accepted way to replace the -o file or the file being formatted is to write a temporary created with os.CreateTemp and os.Rename it over the target once every fallible step (parse, generate, format, write, close) has succeeded; every function that renames must remove its temporary on its failing paths. R2: the errors of Write/Close on the temporary are returned, none is dropped or deferred away. R3: main exits non-zero exactly on the err != nil arm of run(), and every error produced in run/formatFile is returned, none merely printed. R4 (reported as a fact): whether bebopfmt re-parses its output before replacing the file. R5: the formatter's sibling-agreement rules of C16 (the third sentence of the property rests on them). R6: the buffer collecting the formatted text is fresh storage, not a re-slice of the input.")
 	p := loadRepo(c)
 	if p == nil {
 		return
@@ -145,6 +145,48 @@ func checkC19(c *core.Ctx) {
 	}
 	c.Count("main_packages", nMain)
 	c.Floor("main_packages", 2)
+	// R5: "when bebopfmt -w succeeds the file still parses to the same schema"
+	// rests on the formatter: its sibling-agreement rules (C16) are obligations here too
+	tmp := core.NewCtx("C16", c.Tier, c.RepoDir, c.VerifDir)
+	checkC16(tmp)
+	for _, o := range tmp.Obls {
+		c.Check("R5", "["+strings.TrimPrefix(o.Rule, "C16/")+"] "+o.Key, o.Pos, o.OK, o.Msg)
+	}
+	for _, u := range tmp.Undecided {
+		c.Undecide("%s", u)
+	}
+	// R6: the buffer the formatted text is collected in is fresh storage
+	for _, pk := range p.All {
+		if !strings.HasPrefix(pk.PkgPath, load.Mod+"/main/") {
+			continue
+		}
+		info := pk.TypesInfo
+		for fn, fd := range p.AllDecls() {
+			if p.Owner(fn) != pk || fd.Body == nil {
+				continue
+			}
+			ast.Inspect(fd.Body, func(n ast.Node) bool {
+				call, ok := n.(*ast.CallExpr)
+				if !ok || wire.Canon(call.Fun) != "bytes.NewBuffer" || len(call.Args) != 1 {
+					return true
+				}
+				arg := ast.Unparen(call.Args[0])
+				fresh := false
+				switch x := arg.(type) {
+				case *ast.CompositeLit:
+					fresh = true
+				case *ast.Ident:
+					fresh = x.Name == "nil"
+				case *ast.CallExpr:
+					fresh = wire.Canon(x.Fun) == "make"
+				}
+				_ = info
+				c.Check("R6", "output buffer in "+fd.Name.Name+" is fresh storage", p.Pos(call.Pos()), fresh,
+					"bytes.NewBuffer("+wire.Canon(arg)+") writes into storage that belongs to something else: if that is the input still being read, the output overwrites unread input and the rewritten file is garbage")
+				return true
+			})
+		}
+	}
 	// R4 fact
 	if pk := p.Pkgs[load.Mod+"/main/bebopfmt"]; pk != nil {
 		if fd := p.FuncDecl(pk, "formatFile"); fd != nil {
